@@ -211,13 +211,13 @@ PROPS = {
         "assumptions": ["doc/doc.md keeps its '### Inbuilt Aliases' code blocks", "a helper that tests both members of a pair satisfies SYN-1 by itself"],
     },
     "C03": {
-        "rules": [("ENV-1", env.env1), ("ENV-2", env.env2), ("PAN-5", pan.pan5)],
+        "rules": [("ENV-1", env.env1), ("ENV-2", env.env2), ("ENV-3", env.env3), ("PAN-5", pan.pan5)],
         "explanation": "Decides the plumbing clauses of C03 ('whose left neighbours match the context and do not match the exception', 'scanning left to right'), not the rewrite semantics. "
                        "ENV-1: in SubRule::match_contexts_and_exceptions, for contexts and for exceptions alike, the before-half is a reversed copy of the pair's first element, matched by "
                        "match_before_env on `word.reverse()` at `start_pos.reversed(word)`; the after-half is the pair's second element, matched by match_after_env on the word at end_pos; "
                        "both halves are required (&&) and an empty half is vacuous; is_context is true for contexts and false for exceptions; without contexts the context counts as matched; "
                        "the verdict is `!exception_matched && context_matched`. ENV-2: match_before_env matches with forwards = false, match_after_env with forwards = true, and each of the "
-                       "18 calls between context matchers hands the caller's own `forwards` on. PAN-5: the cursor handed back to the scan loop has been advanced past the rewrite.",
+                       "18 calls between context matchers hands the caller's own `forwards` on. ENV-3 (sibling agreement): the state loops of match_before_env and match_after_env are the same code up to local names and differ in exactly one boolean (the direction flag) — how a failing state clears the verdict and when the loop stops is the same on both sides of the target. PAN-5: the cursor handed back to the scan loop has been advanced past the rewrite.",
         "does_not_decide": "that the matchers accept exactly the segments the elements denote, the position arithmetic (SegPos increment / reversed), long segments, the order of already-rewritten "
                            "versus not-yet-rewritten neighbours: the equality with a reference interpreter is a behavioural statement outside static reach.",
         "assumptions": ["Word::reverse and SegPos::reversed are mutually consistent (not checked)"],
